@@ -102,6 +102,9 @@ let run_model (engine : string) (prog : program) (h : n list) (start : int) (bud
   else
     let ((((ms, res), steps), _), _) = drv_pk ascii prog h (n_of_int budget) fuel (nat_of_int start) in fin (ms, res, steps)
 
+(* ---- property evaluation on the implementation's own results (no model involved) ---- *)
+type rrec = { engine : string; status : string; steps : int; ms : imatch list }
+
 let () =
   let budget = ref 100000 in
   (match Array.to_list Sys.argv with
@@ -113,6 +116,54 @@ let () =
   let prog : program option ref = ref None in
   let hay = ref [] and hayhex = ref "" and start = ref 0 in
   let total_steps = ref 0 in
+  let group : rrec list ref = ref [] in
+  let prev_opt : (string * int * string, rrec) Hashtbl.t = Hashtbl.create 64 in
+  let prev_opt_id = ref "" in
+  let cur_tbl : (string * int * string, rrec) Hashtbl.t = Hashtbl.create 64 in
+  let pviol = ref 0 in
+  let inconclusive = ref 0 in
+  let viol prop detail =
+    incr pviol;
+    Printf.printf "PROPVIOL prop=%s case=%s pat=%s flags=%s hay=%s start=%d detail=%s\n" prop !cur_id !cur_pat !cur_flags !hayhex !start detail in
+  let base_id id = String.sub id 0 (String.length id - 1) in
+  let flush_group () =
+    let g = List.rev !group in
+    group := [];
+    let find e = List.find_opt (fun r -> r.engine = e) g in
+    let same a b = a.status = "ok" && b.status = "ok" && a.ms = b.ms in
+    let both_ok a b = a.status = "ok" && b.status = "ok" in
+    (* C05: an engine exceeds the step budget although the other one (the same ordered search)
+       finishes with at least a factor 50 to spare; both exceeding = exponential pattern, inconclusive *)
+    let c05 a b = match find a, find b with
+      | Some x, Some y ->
+        if x.status = "budget" && y.status = "ok" && y.steps * 50 < !budget then viol "C05" (Printf.sprintf "%s:step-budget-exceeded(%s=%d)" a b y.steps);
+        if y.status = "budget" && x.status = "ok" && x.steps * 50 < !budget then viol "C05" (Printf.sprintf "%s:step-budget-exceeded(%s=%d)" b a x.steps);
+        if x.status = "budget" && y.status = "budget" then incr inconclusive
+      | _ -> () in
+    c05 "bt8" "pk8"; c05 "bta" "pka";
+    List.iter (fun r -> if r.status = "panic" then viol "C06" (Printf.sprintf "%s:panic" r.engine)) g;
+    (match find "bt8", find "pk8" with
+     | Some a, Some b -> if both_ok a b && not (same a b) then viol "C02" (Printf.sprintf "bt8=%s/pk8=%s" (show_matches a.ms) (show_matches b.ms))
+     | _ -> ());
+    (match find "bta", find "pka" with
+     | Some a, Some b -> if both_ok a b && not (same a b) then viol "C02" (Printf.sprintf "bta=%s/pka=%s" (show_matches a.ms) (show_matches b.ms))
+     | _ -> ());
+    (match find "bt8", find "bta" with
+     | Some a, Some b -> if both_ok a b && not (same a b) then viol "C13" (Printf.sprintf "bt8=%s:%s/bta=%s:%s" a.status (show_matches a.ms) b.status (show_matches b.ms))
+     | _ -> ());
+    (* C03: compare with the optimized twin (case ids <k>o then <k>n) *)
+    List.iter (fun r ->
+      Hashtbl.replace cur_tbl (!hayhex, !start, r.engine) r;
+      if String.length !cur_id > 0 && !cur_id.[String.length !cur_id - 1] = 'n' && base_id !cur_id = !prev_opt_id then
+        match Hashtbl.find_opt prev_opt (!hayhex, !start, r.engine) with
+        | Some o -> if both_ok o r && o.ms <> r.ms then viol "C03" (Printf.sprintf "%s:opt=%s/noopt=%s" r.engine (show_matches o.ms) (show_matches r.ms))
+        | None -> ()) g in
+  let end_case () =
+    flush_group ();
+    if String.length !cur_id > 0 && !cur_id.[String.length !cur_id - 1] = 'o' then begin
+      Hashtbl.reset prev_opt; Hashtbl.iter (fun k v -> Hashtbl.replace prev_opt k v) cur_tbl; prev_opt_id := base_id !cur_id
+    end;
+    Hashtbl.reset cur_tbl in
   let build () =
     match !prog, !hdr with
     | Some p, _ -> p
@@ -132,7 +183,7 @@ let () =
       | "G" :: nl :: ng :: uni :: sp -> hdr := Some (ios nl, ios ng, bos uni, parse_sp sp)
       | "I" :: rest -> insns := parse_insn rest :: !insns
       | "B" :: inv :: rest -> brs := { br_invert = bos inv; br_ivs = pairs rest } :: !brs
-      | "H" :: hx :: s :: _ -> hay := parse_hex hx; hayhex := hx; start := ios s
+      | "H" :: hx :: s :: _ -> flush_group (); hay := parse_hex hx; hayhex := hx; start := ios s
       | "X" :: what :: _ ->
         incr mism;
         Printf.printf "MISMATCH case=%s pat=%s flags=%s kind=%s\n" !cur_id !cur_pat !cur_flags what
@@ -141,6 +192,7 @@ let () =
         let p = build () in
         let impl_ms = parse_matches ms in
         let impl_steps = ios steps in
+        group := { engine; status; steps = impl_steps; ms = impl_ms } :: !group;
         let (mst, msteps, mms) = run_model engine p !hay !start !budget in
         total_steps := !total_steps + msteps;
         if impl_steps > List.length p.p_insns then incr nontrivial;
@@ -152,9 +204,9 @@ let () =
           Printf.printf "MISMATCH case=%s pat=%s flags=%s hay=%s start=%d engine=%s impl=%s/%d/%s model=%s/%d/%s\n"
             !cur_id !cur_pat !cur_flags !hayhex !start engine status impl_steps (show_matches impl_ms) mst msteps (show_matches mms)
         end
-      | ["E"] -> ()
+      | ["E"] -> end_case ()
       | [] -> ()
       | _ -> failwith ("bad line: " ^ line)
     done
   with End_of_file -> ());
-  Printf.printf "SUMMARY cases=%d runs=%d mismatches=%d nontrivial=%d model_steps=%d\n" !cases !runs !mism !nontrivial !total_steps
+  Printf.printf "SUMMARY cases=%d runs=%d mismatches=%d nontrivial=%d model_steps=%d propviol=%d inconclusive=%d\n" !cases !runs !mism !nontrivial !total_steps !pviol !inconclusive
